@@ -95,8 +95,19 @@ class Helper:
     def eligible(self):
         n = self.node
         a = n.args
-        if (n.decorator_list and not self.static) or isinstance(n, ast.AsyncFunctionDef) or a.vararg or a.kwarg or a.kwonlyargs:
+        if (n.decorator_list and not self.static) or isinstance(n, ast.AsyncFunctionDef) or a.kwonlyargs:
             return False
+        if a.vararg or a.kwarg:
+            # *args / **kwargs that the helper only passes on (`f(*args, **kwargs)`) can be bound to the caller's own starred arguments
+            star = {x.arg for x in (a.vararg, a.kwarg) if x is not None}
+            passed = set()
+            for x in _shallow(n):
+                if isinstance(x, ast.Starred) and isinstance(x.value, ast.Name) and x.value.id in star:
+                    passed.add(id(x.value))
+                elif isinstance(x, ast.keyword) and x.arg is None and isinstance(x.value, ast.Name) and x.value.id in star:
+                    passed.add(id(x.value))
+            if any(isinstance(x, ast.Name) and x.id in star and id(x) not in passed for x in _shallow(n)):
+                return False
         if self.is_method and not self.params and not self.static:
             return False
         if not self.body:
@@ -435,13 +446,27 @@ def instantiate(h, call, caller_node, recv, target_names=None):
     """(prologue stmts, body stmts with locals renamed and parameters bound, return-name hints).  Raises Unsupported."""
     params = h.params[1:] if (h.is_method and not h.static) else list(h.params)
     bound = {}
-    if len(call.args) > len(params):
+    star_names = {}
+    va, ka = h.node.args.vararg, h.node.args.kwarg
+    cargs = list(call.args)
+    ckws = list(call.keywords)
+    if va is not None:
+        if not (cargs and isinstance(cargs[-1], ast.Starred) and isinstance(cargs[-1].value, ast.Name) and len(cargs) - 1 <= len(params)):
+            raise Unsupported('helper takes *%s: the call must pass one starred name' % va.arg)
+        star_names[va.arg] = cargs.pop().value.id
+    if ka is not None:
+        dbl = [k for k in ckws if k.arg is None]
+        if not (len(dbl) == 1 and isinstance(dbl[0].value, ast.Name)):
+            raise Unsupported('helper takes **%s: the call must pass one double-starred name' % ka.arg)
+        star_names[ka.arg] = dbl[0].value.id
+        ckws = [k for k in ckws if k.arg is not None]
+    if len(cargs) > len(params):
         raise Unsupported('too many arguments')
-    for p, a in zip(params, call.args):
+    for p, a in zip(params, cargs):
         if isinstance(a, ast.Starred):
             raise Unsupported('starred argument')
         bound[p] = a
-    for kw in call.keywords:
+    for kw in ckws:
         if kw.arg is None or kw.arg not in params or kw.arg in bound:
             raise Unsupported('keyword argument')
         bound[kw.arg] = kw.value
@@ -457,7 +482,7 @@ def instantiate(h, call, caller_node, recv, target_names=None):
     for a in bound.values():
         arg_names |= _names_in(a)
     exprs = {}
-    names = {}
+    names = dict(star_names)
     prologue = []
     if h.is_method and not h.static:
         exprs[h.params[0]] = recv
@@ -676,7 +701,10 @@ def inline_into_function(fn, h, selfnames, counter):
                     pre = prologue + (eliminate_returns(body, emit) or [])
                     st = None
                     break
-                if isinstance(st, ast.Assign) and st.value is c and len(st.targets) == 1:
+                # (a store into shared state - attribute or subscript target - happens after the helper has returned, outside whatever `with`/`try` the helper's
+                # return statement sits in: those go through the temporary of the hoist form below, so the store keeps its place)
+                if isinstance(st, ast.Assign) and st.value is c and len(st.targets) == 1 and \
+                        (isinstance(st.targets[0], ast.Name) or (isinstance(st.targets[0], ast.Tuple) and all(isinstance(e, ast.Name) for e in st.targets[0].elts))):
                     tgt = st.targets[0]
                     tnames = None
                     if isinstance(tgt, ast.Name):
